@@ -57,6 +57,10 @@ LINES = [
     ("openc", PAD + "y{n} = h({n}, ! c{n}"),
     ("opend", PAD + "y{n} = h({n}, !! d{n}"),
     ("doc", "!! d{n}"),
+    # comment and documentation lines reaching beyond column 72 (the column limit applies to statements only)
+    ("doclong", "!! d{n} words|72| tail{n}"),
+    ("cClong", "C comment {n}|72| more{n}"),
+    ("inlinedlong", PAD + "x{n} = {n} !! d{n} and|72| tail{n}"),
     ("litbang", PAD + "s{n} = 'a!b' // \"c!!d\" ! c{n}"),
 ]
 MARKS = dict(docmark="!", predocmark=">", docmark_alt="*", predocmark_alt="|")
@@ -90,6 +94,8 @@ def fixed_to_ref_free(lines, length_limit):
         code = line[6:72] if length_limit else line[6:]
         if length_limit and len(line) > 72 and line[72:].strip():
             feats.add("seqfield")
+            if "!" in line[6:72]:
+                feats.add("inline_comment_reaches_seqfield")
             if line[72:].lstrip().startswith("!"):
                 feats.add("seqfield_starts_with_bang")
         recs.append(("cont" if cont else "init", label, code))
@@ -176,7 +182,8 @@ def judge_seq(st: Stats, seq, length_limit):
         return
     items, err = run_ford_fixed(lines, length_limit)
     want = norm_items(ref.out)
-    f = dict(features=",".join(sorted(feats)), classes="+".join(LINES[k][0] for k in seq), length_limit=length_limit)
+    f = dict(features=",".join(sorted(feats)), classes="+".join(LINES[k][0] for k in seq), length_limit=length_limit,
+             inline_comment_reaches_seqfield="inline_comment_reaches_seqfield" in feats)
     inp = dict(lines=lines, length_limit=length_limit)
     st.nontrivial.add(core.digest([want, length_limit]))
     if err:
